@@ -16,15 +16,15 @@ MANIFEST = dict(
         "increasing indices only (sparse_writes_in_bounds_partial, with decide-checked out-of-bounds / empty-input witnesses) and "
         "agrees with the repaired one on such inputs (repaired_eq_current); the three CSV overload families return the "
         "exception or a well-formed dataset with batches <= requested (import_wellformed_or_error_csv_*, via lemmas about "
-        "optimalBatchSizes); exported records are read back unchanged at token level (csv_roundtrip, csv_roundtrip_regression). "
+        "optimalBatchSizes); exported records are read back unchanged at token level (csv_roundtrip, csv_roundtrip_regression, libsvm_roundtrip); the PEG model of the eight phrase_parse grammars never loops without consuming input (parser_total). "
         "The model — a PEG-with-skipper interpreter with the phrase_parse grammars of Csv.cpp/SparseData.cpp, spirit's numeric "
         "lexers, exact decimal->double conversion, and the post-parse logic — is tied to the real importers by an exact "
         "line-by-line correspondence on grammar-directed files, byte-level mutations and exporter->importer round trips, for all "
         "14 LibSVM/CSV overloads, under ASan/UBSan with an allocation limit and a watchdog."),
-  note=TRUST + "boost::spirit's own parsing and memory safety, and 'never hangs' are runtime evidence only (sanitizers + watchdog over the generated "
-       "files; the PEG model's loops are total by construction, a proof that they never report `hang` for the eight grammars is not done); "
+  note=TRUST + "boost::spirit's own parsing and memory safety are runtime evidence only (sanitizers + watchdog over the generated files); 'never hangs' is a theorem "
+       "about the PEG model of the grammars (parser_total), for the real parsers it is the watchdog; "
        "numeric values are compared only for tokens of at most 15 digits and one-digit exponents (others run for memory safety + oracle only); "
-       "the scalar CSV readers (Data<int/unsigned/float/double>) are not covered; libsvm_roundtrip at token level is only exercised (rt stream), not proved.",
+       "the scalar CSV readers (Data<int/unsigned/float/double>) are not covered; libsvm_roundtrip is proved for regression labels and dense export (classification label mapping 2l-1 / l+1 only exercised by the rt stream).",
   technique="Lean 4 proof about an executable importer model + differential correspondence with the C++ (ASan/UBSan)",
   design="§6 C19")
 
